@@ -20,4 +20,8 @@ meta['confirmed_by_main'] = {
     'demo_exit_clean': int(m.group(1)), 'demo_exit_with_patch': int(m.group(2)), 'tests_with_patch': m.group(3),
     'checks': checks}
 json.dump(meta, open(os.path.join(dst, 'meta.json'), 'w'), indent=1)
-print(name, 'kept;', 'caught' if any(c['caught'] for c in checks) else 'MISSED')
+harmless = meta.get('kind') == 'harmless'
+if harmless:
+    print(name, 'kept (harmless);', 'FALSE ALARM' if any(c['exit'] != 0 for c in checks) else 'silent')
+else:
+    print(name, 'kept;', 'caught' if any(c['caught'] for c in checks) else 'MISSED')
